@@ -910,6 +910,23 @@ def exhaustive_forbid_seq():
                     ops += ['call 0 1 %s 0' % c for c in cs]
                     ops += ['release 4', 'release 1', 'release 2', 'release 6', 'dseq 1']
                     segs.append(('xfs-%d-%d-%s-%s' % (fsh, k, pk[0] if pk else 'none', cs), ops))
+    # the forbidding expectation is ITSELF a step of the sequence (RT_TIMES(0, 0) with IN_SEQUENCE - the one forbidding form
+    # that may be sequenced), standing first, behind an optional step or behind a still required step (out of order): the
+    # call is one fatal 'forbidden call' report in every position, never a sequence mismatch
+    for pos in ('first', 'opt', 'req'):
+        for older in (False, True):
+            for cs in strings:
+                ops = ['mock 0', 'seq 1']
+                if older:
+                    ops.append(expect_line(6, 9, 0, p=((1, 1), (0, 0)), retv=600))
+                if pos == 'opt':
+                    ops.append(expect_line(1, 11, 0, p=((1, 0), (0, 0)), retv=100, q=(1, 0)))
+                elif pos == 'req':
+                    ops.append(expect_line(1, 5, 0, p=((1, 0), (0, 0)), retv=100, lo=1, hi=1, q=(1, 0)))
+                ops.append(expect_line(2, 5, 0, p=((1, 1), (0, 0)), retv=200, lo=0, hi=0, q=(1, 0)))
+                ops += ['call 0 1 %s 0' % c for c in cs]
+                ops += ['release 2', 'release 1', 'release 6', 'dseq 1']
+                segs.append(('xfs-seqforbid-%s-%d-%s' % (pos, int(older), cs), ops))
     return segs
 
 def exhaustive_ok():
